@@ -4,7 +4,7 @@ from sa import cfg
 from sa.cfg import BranchFacts
 from sa.flow import arg_nodes
 
-UNITS = ["lib/BuildSystem/BuildSystem.cpp", "lib/BuildSystem/ExternalCommand.cpp", "lib/BuildSystem/BuildNode.cpp"]
+UNITS = ["lib/BuildSystem/BuildSystem.cpp", "lib/BuildSystem/ExternalCommand.cpp", "lib/BuildSystem/BuildNode.cpp", "lib/BuildSystem/ShellCommand.cpp"]
 THOROUGH_ALL_UNITS = False
 EXPLANATION = (
     "lookupRule has a case for every build-key kind, and every rule it creates pairs the task class with that class's own "
@@ -96,6 +96,8 @@ def run(ctx):
     prog, rep = ctx.prog, ctx.report
     from rules import inputids
     inputids.run_rule(prog, rep)
+    from rules import C11
+    C11.r_deps_unescaped(prog, rep, min_actions=2)
 
     r = rep.rule("R-LOOKUP-EXHAUSTIVE", "lookupRule handles every key kind; each rule pairs its task class with that class's own validity predicate and the "
                                         "signature of the command/node it stands for", floor=20)
